@@ -201,40 +201,36 @@ func (set *SortedSet) AddOrUpdate(
 	}
 
 	for _, m := range members {
-		if strings.EqualFold(policy, "xx") {
-			// Only update existing elements, do not add new elements
-			if set.Contains(m.Value) {
-				set.members[m.Value] = MemberObject{
-					Value:  m.Value,
-					Score:  compareScores(set.members[m.Value].Score, m.Score, comp),
-					Exists: true,
-				}
-				if strings.EqualFold(ch, "ch") {
-					count += 1
-				}
+		existing, exists := set.members[m.Value]
+		if !exists || !existing.Exists {
+			// A new member: XX forbids adding it, otherwise it takes the given score whatever GT/LT say.
+			if strings.EqualFold(policy, "xx") {
+				continue
 			}
-			continue
-		}
-		if strings.EqualFold(policy, "nx") {
-			// Only add new elements, do not update existing elements
-			if !set.Contains(m.Value) {
-				set.members[m.Value] = MemberObject{
-					Value:  m.Value,
-					Score:  m.Score,
-					Exists: true,
-				}
-				count += 1
+			set.members[m.Value] = MemberObject{
+				Value:  m.Value,
+				Score:  m.Score,
+				Exists: true,
 			}
-			continue
-		}
-		// Policy not specified, just Set the elements and scores
-		if set.members[m.Value].Score != m.Score || !set.members[m.Value].Exists {
 			count += 1
+			continue
+		}
+		// An existing member: NX forbids updating it, GT/LT only let the score move one way.
+		if strings.EqualFold(policy, "nx") {
+			continue
+		}
+		score := compareScores(existing.Score, m.Score, comp)
+		if score == existing.Score {
+			continue
 		}
 		set.members[m.Value] = MemberObject{
 			Value:  m.Value,
-			Score:  compareScores(set.members[m.Value].Score, m.Score, comp),
+			Score:  score,
 			Exists: true,
+		}
+		// A member whose score changed is counted when CH is given, and by a plain ZADD without XX.
+		if strings.EqualFold(ch, "ch") || !strings.EqualFold(policy, "xx") {
+			count += 1
 		}
 	}
 	return count, nil
